@@ -23,6 +23,12 @@ def check(run):
                 key = "attest-siblings"
             run.violation(key, "%s proof DAG width %d depth %d (%d delegations): %d signature verifications > %d" % (
                 s["shape"], s["width"], s["depth"], s["distinct_delegations"], s["verifications"], s["bound"]), s)
+    # work that signature verifications do not account for: a world of a few dozen delegations whose verifications stay
+    # within the bound takes milliseconds; ten seconds of wall time for it is work of another kind growing with the paths
+    for s in (stats.get("extra", {}) or {}).get("shapes", []):
+        if s.get("wall_ms", 0) > 10000 and s["verifications"] <= max(s["bound"], 5000):
+            run.violation("time-exceeded-" + s["shape"], "%s proof DAG width %d depth %d (%d delegations): %d signature verifications but %.1f s of wall time "
+                          "(work per proof path that is not signature verification)" % (s["shape"], s["width"], s["depth"], s["distinct_delegations"], s["verifications"], s["wall_ms"] / 1000.0), s)
     run.cov["shape_table"] = (stats.get("extra", {}) or {}).get("shapes", [])
     _worlds.fill_cov(run, stats, RULE)
     run.cov["exhaustive"] = True
